@@ -18,7 +18,7 @@ from .c05 import split_lon, flatten_base
 
 MANIFEST = {
     "level": "other",
-    "technique": "static analysis: symbolic evaluation + polynomial normal form (unit norm, identity at zero interval, textbook rotation form), polynomial-copy comparison, the mean-obliquity polynomial against its reference over +-5 centuries, unit inference (deg/rad/ratio), effect analysis",
+    "technique": "static analysis: symbolic evaluation + polynomial normal form (unit norm, identity at zero interval, textbook rotation form), polynomial-copy comparison, the mean-obliquity polynomial against its reference over +-5 centuries, unit inference (deg/rad/ratio), effect analysis; the Angle / Epoch operator semantics the evaluator assumes are verified (operator conformance, operands never written)",
     "text": "From the source alone and for all inputs at once: the precessed direction has unit norm, a zero interval returns the input direction, both equatorial routines are the same rotation form, the ecliptical angle polynomials are identical in the two functions that carry copies, every branch feeds radians to the Angle constructor, and no input object is written. Round-trip tolerances (1e-9 / 1e-6 / 1e-4) are floating-point facts and are not decided.",
     "note": "Trusted: term/polynomial engine, Angle/Epoch semantics read from their classes. Undecided: there-and-back tolerances, agreement of the two routes to 1e-4, FK4 vs FK5 distance, proper-motion linearity, orbital-element round trip values.",
 }
